@@ -87,7 +87,9 @@ fn get_decl_name_token_lsp_range(
         .get_decl_index()
         .get_decl(&decl_id)?;
     let document = semantic_model.get_document_by_file_id(decl_id.file_id)?;
-    document.to_lsp_range(decl.get_range())
+    // the name token only: the range of `local x <const>` also covers the attribute, which a rename must keep
+    let name_range = rowan::TextRange::at(decl.get_position(), rowan::TextSize::of(decl.get_name()));
+    document.to_lsp_range(name_range)
 }
 
 #[allow(clippy::mutable_key_type)]
